@@ -222,6 +222,8 @@ func (l *linkedBuffer) WriteString(str string) error {
 
 func (l *linkedBuffer) recycle() {
 	l.recycleMux.Lock()
+	// slices pinned by previous ReadBytes/Peek calls are only referenced by pinnedList, release them too.
+	l.cleanPinnedList()
 	for l.sliceList.size() > 0 {
 		slice := l.sliceList.popFront()
 		if slice.isFromShm {
